@@ -205,6 +205,9 @@ func TestC13(t *testing.T) {
 	cfg.ForkPrefix = false
 	cfg.MaxSteps = 30
 	cfg.MinSteps = 8
+	// half of the histories run with a slide window: the producer's own view of the irreversible height after blocks
+	// it produced itself is part of "the producer's state" a replaying node has to reach (CheckState compares it)
+	cfg.Windows = []int64{0, 0, 1, 2}
 	cfg.Mix = func(rt *rapid.T, nm *hx.NodeMachine) hx.NOp { return genC13Op(rt, nm, cfg) }
 	cfg.Opts = func(rt *rapid.T, o *hx.NodeOpts) {
 		switch rapid.IntRange(0, 5).Draw(rt, "genesis") {
